@@ -4,48 +4,53 @@
 -/
 import Upnp.Lemmas.C10Step
 import Upnp.Spec.C11
+set_option linter.unusedSectionVars false
 namespace Upnp.C11
 open Upnp PyDict Upnp.C09 Upnp.C10
+variable [FloatOracle]
 
 /-- the stored value of a variable after one well-formed property set -/
-def storedAfter (d : Decl) (b : Body) (st : Stored) : Stored :=
-  match carried d.name b with
+def storedAfter (d : Var) (b : Body) (st : Stored) : Stored :=
+  match carried d.decl.name b with
   | none => st
   | some text =>
-    match convert (inKindOf d.dtype) text with
-    | none => .convErr
-    | some x => if validate d x then .val x else st
+    match convert d text with
+    | .error _ => .err
+    | .ok x => if validate d x then .val x else st
 
-def valsOf (s : Svc) : List (Decl × Stored) := s.vars.map fun v => (v.decl, v.st.stored)
-def valsStep (b : Body) (vs : List (Decl × Stored)) : List (Decl × Stored) :=
+def valsOf (s : Svc) : List (Var × Stored) := s.vars.map fun v => (Var.blank v, v.st.stored)
+def valsStep (b : Body) (vs : List (Var × Stored)) : List (Var × Stored) :=
   vs.map fun p => (p.1, storedAfter p.1 b p.2)
 
 /-- the values of a service after receiving the NOTIFYs `N` in order, from the initial state -/
-def ideal (ds : List Decl) (N : List Notify) : List (Decl × Stored) :=
-  N.foldl (fun vs n => valsStep n.body vs) (ds.map fun d => (d, .unset))
+def ideal (ds : List Var) (N : List Notify) : List (Var × Stored) :=
+  N.foldl (fun vs n => valsStep n.body vs) (ds.map fun d => (Var.blank d, .val .none))
 
-def finalStored (d : Decl) (N : List Notify) (init : Stored) : Stored :=
+def finalStored (d : Var) (N : List Notify) (init : Stored) : Stored :=
   N.foldl (fun st n => storedAfter d n.body st) init
+
+theorem storedAfter_blank (v : Var) (b : Body) (st : Stored) : storedAfter (Var.blank v) b st = storedAfter v b st := rfl
 
 theorem varAfter_stored (names : List Str) (hn : ∀ n ∈ names, braceFree n = true) (b : Body) (hb : bodyWF b = true)
     (tick : Nat) (v : Var) (hx : names.contains v.decl.name = true) :
-    (varAfter (assigns names b) tick v).decl = v.decl
-    ∧ (varAfter (assigns names b) tick v).st.stored = storedAfter v.decl b v.st.stored := by
+    Var.blank (varAfter (assigns names b) tick v) = Var.blank v
+    ∧ (varAfter (assigns names b) tick v).st.stored = storedAfter v b v.st.stored := by
+  refine ⟨blank_eq (varAfter_spec names hn b hb tick v hx).1, ?_⟩
   simp only [varAfter, storedAfter, carried_assigns names hn b hb v.decl.name hx]
   cases get? (assigns names b) v.decl.name with
-  | none => exact ⟨rfl, rfl⟩
+  | none => rfl
   | some text =>
     simp only [setUpnpValue]
-    cases convert (inKindOf v.decl.dtype) text with
-    | none => exact ⟨rfl, rfl⟩
-    | some x =>
+    rcases convert_total v text with ⟨x, hc⟩ | hc
+    · rw [hc]
       simp only
-      by_cases hval : validate v.decl x = true
+      by_cases hval : validate v x = true
       · simp [hval]
       · simp [hval]
+    · rw [hc]; simp
 
 /-- one NOTIFY applied to a service, at value level -/
-theorem valsOf_notifyChanged (s : Svc) (hs : declsWF (declsOf s)) (b : Body) (hb : bodyWF b = true) (tick : Nat) :
+theorem valsOf_notifyChanged (s : Svc) (hs : declsWF s.vars) (b : Body) (hb : bodyWF b = true) (tick : Nat) :
     valsOf (notifyChanged s (changesOf b) tick) = valsStep b (valsOf s) := by
   rw [notifyChanged_spec s hs b hb tick]
   simp only [valsOf, valsStep, List.map_map]
@@ -55,66 +60,66 @@ theorem valsOf_notifyChanged (s : Svc) (hs : declsWF (declsOf s)) (b : Body) (hb
     simp only [Svc.names, List.contains_eq_mem, List.mem_map, decide_eq_true_eq]
     exact ⟨v, hv, rfl⟩
   obtain ⟨h1, h2⟩ := varAfter_stored s.names (names_braceFree s hs) b hb tick v hx
-  simp [Function.comp, h1, h2]
+  simp [Function.comp, h1, h2, storedAfter_blank]
 
-theorem ideal_snoc (ds : List Decl) (N : List Notify) (n : Notify) :
+theorem ideal_snoc (ds : List Var) (N : List Notify) (n : Notify) :
     ideal ds (N ++ [n]) = valsStep n.body (ideal ds N) := by
   simp [ideal, List.foldl_append]
 
-theorem ideal_eq (ds : List Decl) (N : List Notify) :
-    ideal ds N = ds.map fun d => (d, finalStored d N .unset) := by
+theorem ideal_eq (ds : List Var) (N : List Notify) :
+    ideal ds N = ds.map fun d => (Var.blank d, finalStored d N (.val .none)) := by
   unfold ideal
-  suffices H : ∀ (f : Decl → Stored),
-      N.foldl (fun vs n => valsStep n.body vs) (ds.map fun d => (d, f d))
-        = ds.map fun d => (d, finalStored d N (f d)) from H fun _ => .unset
+  suffices H : ∀ (f : Var → Stored),
+      N.foldl (fun vs n => valsStep n.body vs) (ds.map fun d => (Var.blank d, f d))
+        = ds.map fun d => (Var.blank d, finalStored d N (f d)) from H fun _ => (.val .none)
   induction N with
   | nil => intro f; rfl
   | cons n r ih =>
     intro f
     simp only [List.foldl_cons, finalStored]
-    have : valsStep n.body (ds.map fun d => (d, f d)) = ds.map fun d => (d, storedAfter d n.body (f d)) := by
-      simp [valsStep, List.map_map, Function.comp_def]
+    have : valsStep n.body (ds.map fun d => (Var.blank d, f d)) = ds.map fun d => (Var.blank d, storedAfter d n.body (f d)) := by
+      simp [valsStep, List.map_map, Function.comp_def, storedAfter_blank]
     rw [this, ih]
     rfl
 
 /-- **latest carrier wins**: after the NOTIFYs `N`, a variable no NOTIFY carried still has its initial
     stored value; otherwise, if the text of the latest carrier is a valid value, it holds that value -/
-theorem finalStored_latest (d : Decl) (N : List Notify) (init : Stored) :
-    match (N.filterMap fun n => carried d.name n.body).getLast? with
+theorem finalStored_latest (d : Var) (N : List Notify) (init : Stored) :
+    match (N.filterMap fun n => carried d.decl.name n.body).getLast? with
     | none => finalStored d N init = init
     | some text =>
-      match convert (inKindOf d.dtype) text with
-      | some x => validate d x = true → finalStored d N init = .val x
-      | none => True := by
+      match convert d text with
+      | .ok x => validate d x = true → finalStored d N init = .val x
+      | .error _ => True := by
   induction N generalizing init with
   | nil => rfl
   | cons n r ih =>
     have ihr := ih (storedAfter d n.body init)
     simp only [List.filterMap_cons, finalStored, List.foldl_cons] at ihr ⊢
-    cases hc : carried d.name n.body with
+    cases hc : carried d.decl.name n.body with
     | none =>
       simp only [storedAfter, hc] at ihr ⊢
       exact ihr
     | some t =>
       simp only
-      cases hl : (r.filterMap fun n => carried d.name n.body).getLast? with
+      cases hl : (r.filterMap fun n => carried d.decl.name n.body).getLast? with
       | some t' =>
-        have : (t :: r.filterMap fun n => carried d.name n.body).getLast? = some t' := by
-          cases hr : r.filterMap fun n => carried d.name n.body with
+        have : (t :: r.filterMap fun n => carried d.decl.name n.body).getLast? = some t' := by
+          cases hr : r.filterMap fun n => carried d.decl.name n.body with
           | nil => simp [hr] at hl
           | cons a l => rw [hr] at hl; simpa [List.getLast?_cons_cons] using hl
         rw [this]
         simp only [hl] at ihr
         exact ihr
       | none =>
-        have hnil : (r.filterMap fun n => carried d.name n.body) = [] := by
+        have hnil : (r.filterMap fun n => carried d.decl.name n.body) = [] := by
           simpa [List.getLast?_eq_none_iff] using hl
         simp only [hl] at ihr
         simp only [hnil, List.getLast?_singleton]
         change finalStored d r (storedAfter d n.body init) = storedAfter d n.body init at ihr
-        cases hcv : convert (inKindOf d.dtype) t with
-        | none => trivial
-        | some x =>
+        cases hcv : convert d t with
+        | error _ => trivial
+        | ok x =>
           intro hv
           change finalStored d r (storedAfter d n.body init) = .val x
           rw [ihr]
@@ -126,32 +131,33 @@ theorem zip_map_self {α β : Type} (l : List α) (f : α → β) : l.zip (l.map
   | cons a r ih => simp [ih]
 
 /-- the values read from `ideal ds (the NOTIFYs for the granted SID)` satisfy the judge's clause for one service -/
-theorem svcValsOk_ideal (ds : List Decl) (sid : Option Str) (seen : List Notify) :
+theorem svcValsOk_ideal (ds : List Var) (sid : Option Str) (seen : List Notify) :
     svcValsOk ds sid seen
       ((ideal ds (match sid with | some s => seen.filter (fun n => n.hdrs.sid == some s) | none => [])).map
-        fun p => (p.1.name, p.2.read)) = true := by
+        fun p => (p.1.decl.name, Stored.read p.2)) = true := by
   rw [ideal_eq]
   simp only [svcValsOk, List.map_map, List.length_map, beq_self_eq_true, Bool.true_and]
   rw [zip_map_self, List.all_eq_true]
   intro p hp
   simp only [List.mem_map] at hp
   obtain ⟨d, _, rfl⟩ := hp
-  simp only [Function.comp, beq_self_eq_true, Bool.true_and]
+  have hbn : (Var.blank d).decl.name = d.decl.name := rfl
+  simp only [Function.comp, hbn, beq_self_eq_true, Bool.true_and]
   cases sid with
-  | none => simp [expectedVal, finalStored, Stored.read]
+  | none => simp [expectedVal, finalStored, Stored.read, Upnp.C08.Cell.read]
   | some s =>
     simp only [expectedVal, latestText]
-    have h := finalStored_latest d (seen.filter (fun n => n.hdrs.sid == some s)) .unset
-    cases hl : ((seen.filter (fun n => n.hdrs.sid == some s)).filterMap fun n => carried d.name n.body).getLast? with
-    | none => simp only [hl] at h; simp [h, Stored.read]
+    have h := finalStored_latest d (seen.filter (fun n => n.hdrs.sid == some s)) (.val .none)
+    cases hl : ((seen.filter (fun n => n.hdrs.sid == some s)).filterMap fun n => carried d.decl.name n.body).getLast? with
+    | none => simp only [hl] at h; simp [h, Stored.read, Upnp.C08.Cell.read]
     | some text =>
       simp only [hl] at h ⊢
-      cases hc : convert (inKindOf d.dtype) text with
-      | none => rfl
-      | some x =>
+      cases hc : convert d text with
+      | error _ => rfl
+      | ok x =>
         simp only [hc] at h ⊢
         by_cases hv : validate d x = true
-        · simp [hv, h hv, Stored.read]
+        · simp [hv, h hv, Stored.read, Upnp.C08.Cell.read]
         · simp [hv]
 
 end Upnp.C11
